@@ -132,6 +132,11 @@ func Type(t T) reflect.Type {
 
 func typeLocked(t T) reflect.Type {
 	if st, ok := scalarTypes[t.K]; ok {
+		if t.Name != "" { // the named (defined) variant of the scalar kind, where the library has one
+			if nt, ok := lib.NamedScalars[t.K]; ok {
+				return nt
+			}
+		}
 		return st
 	}
 	switch t.K {
@@ -278,3 +283,6 @@ func Map(k, e T) T { return T{K: "map", Key: &k, Elem: &e} }
 
 // Scalar makes a scalar type descriptor.
 func Scalar(k string) T { return T{K: k} }
+
+// NamedScalar makes the descriptor of the named (defined) variant of a scalar kind.
+func NamedScalar(k string) T { return T{K: k, Name: "My"} }
